@@ -366,19 +366,24 @@ impl GrantReleaser for BufferManager {
     }
 
     fn try_allocate_raw(&self, size: usize, region: MemoryRegion) -> bool {
-        let current = self.allocated.load(Ordering::Relaxed);
+        // Same single-step reservation as try_allocate: test and add atomically
+        let hard_limit = self.hard_limit;
+        let reserve = || {
+            self.allocated
+                .fetch_update(Ordering::Relaxed, Ordering::Relaxed, |current| {
+                    current.checked_add(size).filter(|total| *total <= hard_limit)
+                })
+                .is_ok()
+        };
 
-        if current + size > self.hard_limit {
+        if !reserve() {
             // Try eviction
             self.run_eviction_cycle(true);
-
-            let current = self.allocated.load(Ordering::Relaxed);
-            if current + size > self.hard_limit {
+            if !reserve() {
                 return false;
             }
         }
 
-        self.allocated.fetch_add(size, Ordering::Relaxed);
         self.region_allocated[region.index()].fetch_add(size, Ordering::Relaxed);
         true
     }
